@@ -35,3 +35,8 @@ def prefix_fold(f, init, xs, i):
     for j in range(i):
         acc = f(acc, xs[j])
     return acc
+
+
+def items_of(it):
+    """the (remaining) items of an iterator or sequence, as a list"""
+    return list(it)
